@@ -24,6 +24,8 @@ ASSUMPTIONS = [
 ]
 
 ENTRIES = ["swc_utils", "tree", "node"]
+# how the start node's handle is obtained for Tree.Node.traverse
+HANDLES = ["node(i)", "tree[i]", "tree[i-n]", "tree[i:i+1][0]", "iteration"]
 MODES = ["enter", "leave", "both"]
 
 
@@ -44,6 +46,7 @@ def structure_case(draw, tier):
     return {"parents": t["parents"], "shape": t["shape"], "permuted": t["permuted"],
             "start": start, "mode": draw(st.sampled_from(MODES + ["both"])),
             "entry": draw(st.sampled_from(ENTRIES)),
+            "handle": draw(st.sampled_from(HANDLES)),
             # what the `leave` callback does with the list it was handed, once it has read it ("all callbacks")
             "mutate": draw(st.sampled_from(["no", "no", "append", "clear", "sort-reverse"])),
             # what `enter` returns: a unique token, the depth below the start node (0 at the start node), or values
@@ -83,7 +86,23 @@ def _before_edit(parents, sel):
     return old, a, parents[a]
 
 
-def _run_traverse(parents, start, mode, entry, enter, leave, current=None, edit=None, edit_sel=None, decoy_cb=None, row_order=None):
+def _handle(tree, i, how):
+    n = len(tree)
+    if how == "tree[i]":
+        return tree[i]
+    if how == "tree[i-n]":
+        return tree[i - n]
+    if how == "tree[i:i+1][0]":
+        return tree[i:i + 1][0]
+    if how == "iteration":
+        for k, nd in enumerate(tree):
+            if k == i:
+                return nd
+    return tree.node(i)
+
+
+def _run_traverse(parents, start, mode, entry, enter, leave, current=None, edit=None, edit_sel=None, decoy_cb=None, row_order=None,
+                  handle="node(i)"):
     from swcgeom.core.swc_utils import traverse
 
     kw = {}
@@ -116,7 +135,7 @@ def _run_traverse(parents, start, mode, entry, enter, leave, current=None, edit=
         current[0] = tree
     if entry == "tree":
         return tree.traverse(root=start, **kw)
-    return tree.node(start).traverse(**kw)
+    return _handle(tree, start, handle).traverse(**kw)
 
 
 def run_structure(case, ctx):
@@ -207,7 +226,10 @@ def run_structure(case, ctx):
         edited[0] = True
 
     ret = _run_traverse(parents, start, mode, entry, enter, leave, current, edit=case.get("edit") if entry != "swc_utils" else None,
-                        edit_sel=case.get("edit_sel"), decoy_cb=decoy_run, row_order=case.get("row_order"))
+                        edit_sel=case.get("edit_sel"), decoy_cb=decoy_run, row_order=case.get("row_order"),
+                        handle=case.get("handle", "node(i)"))
+    if entry == "node":
+        ctx.cls("handle:" + case.get("handle", "node(i)"))
     if entry == "swc_utils" and case.get("row_order") is not None:
         ctx.cls("raw-table-with-rows-in-any-order")
     if edited[0]:
@@ -280,13 +302,17 @@ def _deep_parents(n, shape):
 
 @st.composite
 def deep_case(draw, tier):
-    limit = draw(st.booleans())
+    kind = draw(st.integers(0, 2))
+    limit = kind == 0
     if limit:
         n = draw(st.integers(2500, 3500))
+    elif kind == 1:
+        n = draw(st.sampled_from([10_000, 12_345, 20_000] if tier == "quick" else [50_000, 100_000, 131_072]))
     else:
-        n = draw(st.sampled_from([10_000, 12_345, 20_000] if tier == "quick" else [50_000, 100_000]))
-    return {"n": n, "shape": draw(st.sampled_from(["chain", "caterpillar", "comb", "caterpillar-leaves-numbered-last",
-                                                   "caterpillar-shuffled", "binary-ladder-shuffled"])),
+        # tables of exactly / just around 2^8 and 2^16 rows
+        n = draw(st.sampled_from([256, 65_536, 256, 65_536, 255, 257, 65_535, 65_537]))
+    shapes = ["chain", "caterpillar", "comb", "caterpillar-leaves-numbered-last", "caterpillar-shuffled", "binary-ladder-shuffled"]
+    return {"n": n, "shape": draw(st.sampled_from(shapes if limit or n >= 1000 else shapes[:2] + shapes[4:])),
             "entry": draw(st.sampled_from(ENTRIES)), "limit": limit,
             "start": draw(st.sampled_from([0, 0, 1, 2]))}
 
@@ -309,6 +335,8 @@ def run_deep(case, ctx):
         start = 0 if start != 1 else [i for i, p in enumerate(parents) if p == 0][0]
     sub_n = len(models.descendants_or_self(parents, start))
     ctx.cls("deep:" + shape, "entry:" + entry, "limited-recursion" if case["limit"] else f"n>={10 ** (len(str(n)) - 1)}")
+    if n in (256, 65536):
+        ctx.cls("rows=2^8-or-2^16")
     ctx.nontrivial(True)
     count = [0]
 
@@ -339,8 +367,9 @@ SUBCHECKS = [
                   "permuted": 100, "start-not-root": 200, "shape:chain": 20, "shape:star": 20,
                   "leave-callback-mutates-its-argument:append": 100, "leave-callback-mutates-its-argument:clear": 100,
                   "enter-returns:depth": 100, "enter-returns:falsy": 100, "callbacks-reused-from-another-tree": 100,
-                  "tree-re-parented-in-place-after-a-first-traversal": 300, "raw-table-with-rows-in-any-order": 150, "edit:item": 60, "edit:copy-then-node.pid": 60}),
-    Sub("deep", deep_case, run_deep, quick=48, thorough=96, shards_quick=4,
-        required={"limited-recursion": 8, "deep:chain": 2, "deep:caterpillar": 2, "deep:caterpillar-leaves-numbered-last": 2,
+                  "tree-re-parented-in-place-after-a-first-traversal": 300, "raw-table-with-rows-in-any-order": 150, "edit:item": 60, "edit:copy-then-node.pid": 60,
+                  "handle:tree[i-n]": 100, "handle:tree[i:i+1][0]": 100, "handle:iteration": 100}),
+    Sub("deep", deep_case, run_deep, quick=64, thorough=96, shards_quick=4,
+        required={"limited-recursion": 8, "rows=2^8-or-2^16": 3, "deep:chain": 2, "deep:caterpillar": 2, "deep:caterpillar-leaves-numbered-last": 2,
                   "deep:caterpillar-shuffled": 2}),
 ]
